@@ -49,7 +49,7 @@ def op_strategy():
         st.integers(0, 3).map(lambda n: ["line", n]),
         st.sampled_from(["bell", "clear", "hide_cursor", "show_cursor"]).map(lambda k: ["ctl", k]),
     )
-    cap = st.lists(p, min_size=1, max_size=3).map(lambda ps: ["capture", ps])
+    cap = st.lists(p, min_size=0, max_size=3).map(lambda ps: ["capture", ps])
     exp = st.one_of(
         st.tuples(st.booleans(), st.booleans()).map(lambda t: ["export_text", t[0], t[1]]),
         st.tuples(st.booleans(), st.booleans()).map(lambda t: ["export_html", t[0], t[1]]),
@@ -141,8 +141,12 @@ class Histories(Part):
                 clock["t"] += 0
                 sut(c.log, r, **kw)
 
+        norm_id = lambda t: re.sub(r"id=[0-9.]+-[0-9]+", "id=X", t)  # noqa
         for op in spec["ops"]:
             k = op[0]
+            fpos, tpos = len(f.getvalue()), len(tf.getvalue())
+            if k in ("print", "log", "rule", "line", "ctl"):
+                pass
             if k == "print":
                 emit(con, op[1])
                 emit(twin, op[1])
@@ -175,7 +179,13 @@ class Histories(Part):
                     else:
                         sut(c.show_cursor, op[1] == "show_cursor")
                 last_was_ctl = True
-            elif k == "capture":
+            if k in ("print", "log", "rule", "line", "ctl"):
+                # everything written outside a capture block reaches the file at once, exactly as on the twin console
+                a, b = norm_id(f.getvalue()[fpos:]), norm_id(tf.getvalue()[tpos:])
+                if a != b:
+                    ctx.violation("file", "C15/file/%s" % ("withheld" if not a else "differs-from-twin"), "after %r the file received %r, the twin console %r" % (op[:1], a[:200], b[:200]))
+                    return
+            if k == "capture":
                 before = f.getvalue()
                 tbefore = tf.getvalue()
                 with con.capture() as cap:
@@ -198,7 +208,7 @@ class Histories(Part):
                 suspended = True
                 ctx.cls("capture")
                 last_was_ctl = False
-            else:
+            elif k in ("export_text", "export_html"):
                 clear = op[1]
                 flag = op[2]
                 written = f.getvalue()[mark:]
